@@ -127,6 +127,9 @@ struct Mon {
     final_contents: Option<Vec<Item>>,
     facts: Facts,
     fault: Option<Div>,
+    /// the reference subscriber (never behind) received a Reset: a C06 matter that does not stop the history,
+    /// the Reset is treated like any other published diff so that the other monitors keep judging
+    deferred_c06: std::rc::Rc<std::cell::RefCell<Option<String>>>,
 }
 
 fn to_ds(v: &[VectorDiff<Tracked>]) -> Vec<D> {
@@ -148,11 +151,11 @@ impl Mon {
                 if ds.is_empty() && self.fault.is_none() {
                     self.fault = Some(Div { prop: "C07", what: "a subscriber received an empty batch".into() });
                 }
-                if ds.iter().any(|d| matches!(d, D::Reset(_))) && self.fault.is_none() {
-                    self.fault = Some(Div {
-                        prop: "C06",
-                        what: "reference subscriber (polled after every call) received a Reset".into(),
-                    });
+                if ds.iter().any(|d| matches!(d, D::Reset(_))) && self.deferred_c06.borrow().is_none() {
+                    *self.deferred_c06.borrow_mut() = Some(format!(
+                        "reference subscriber (polled after every call, never behind) received a Reset: {}",
+                        show_diffs(&ds).chars().take(300).collect::<String>()
+                    ));
                 }
                 self.facts.msgs += 1;
                 if ds.len() > 1 {
@@ -324,12 +327,25 @@ impl Mon {
                     if ds.is_empty() {
                         return div("C07", format!("subscriber s{i} received an empty batch"));
                     }
-                    let is_reset = ds.len() == 1 && matches!(ds[0], D::Reset(_));
+                    let mut is_reset = ds.len() == 1 && matches!(ds[0], D::Reset(_));
+                    if is_reset && undelivered <= cap {
+                        // (only after a deferred C06 fault) the Reset may be a published diff like any other
+                        let published = if s.batched {
+                            let e: Vec<&D> = self.msgs[s.pos_msg..].iter().flatten().collect();
+                            e.len() == 1 && ds[0].same_values(e[0])
+                        } else {
+                            self.msgs.get(s.pos_msg).and_then(|m| m.get(s.pos_diff)).map_or(false, |e| ds[0].same_values(e))
+                        };
+                        if published {
+                            is_reset = false;
+                        }
+                    }
                     if is_reset {
                         let D::Reset(values) = &ds[0] else { unreachable!() };
                         if undelivered <= cap {
+                            // also C05: what a subscriber that never fell behind receives is the published diffs
                             return div(
-                                "C06",
+                                "C05|C06",
                                 format!("subscriber s{i} received a Reset with only {undelivered} message(s) pending (capacity {cap})"),
                             );
                         }
@@ -409,10 +425,21 @@ impl Mon {
 /// Execute one history with all monitors armed. Returns the facts observed, or the first divergence.
 pub fn run_vec_history(h: &VecHistory) -> Result<Facts, Div> {
     table_reset();
-    let r = run_inner(h);
+    let deferred_cell = std::rc::Rc::new(std::cell::RefCell::new(None));
+    let r = run_inner(h, deferred_cell.clone());
+    let deferred: Option<String> = deferred_cell.borrow_mut().take();
     // everything of the history is gone here
     let (live, faults, ids) = table_finish();
-    let r = r?;
+    let r = match (r, deferred) {
+        (Ok(f), None) => f,
+        (Ok(_), Some(what)) => return div("C06", what),
+        (Err(d), None) => return Err(d),
+        (Err(d), Some(what)) => {
+            let prop: &'static str =
+                if d.prop.split('|').any(|t| t == "C06") { d.prop } else { Box::leak(format!("{}|C06", d.prop).into_boxed_str()) };
+            return Err(Div { prop, what: format!("{} (earlier: {what})", d.what) });
+        }
+    };
     if let Some(f) = faults.first() {
         return div("C20", format!("{f} ({} fault(s))", faults.len()));
     }
@@ -422,7 +449,7 @@ pub fn run_vec_history(h: &VecHistory) -> Result<Facts, Div> {
     Ok(r)
 }
 
-fn run_inner(h: &VecHistory) -> Result<Facts, Div> {
+fn run_inner(h: &VecHistory, deferred: std::rc::Rc<std::cell::RefCell<Option<String>>>) -> Result<Facts, Div> {
     let mut ob: Option<ObservableVector<Tracked>> = Some(crate::vops::make_vector(h.capacity, &h.init));
     let ref_sub = ob.as_ref().unwrap().subscribe();
     let mut mon = Mon {
@@ -435,6 +462,7 @@ fn run_inner(h: &VecHistory) -> Result<Facts, Div> {
         final_contents: None,
         facts: Facts::default(),
         fault: None,
+        deferred_c06: deferred,
     };
 
     for op in &h.ops {
